@@ -319,6 +319,9 @@ func ruleForwardOnce(c *Ctx, cf *chanFlow, classes []*chanClass) {
 				forwarded := 0
 				for _, snd := range s.sends {
 					v := snd.Args[1].StripConv()
+					if received && s.val != nil && v.String() != s.val.String() && strings.Contains(v.String(), s.val.String()) && !freshCopyOf(v, s.val) {
+						bad = fmt.Sprintf("the relay forwards at %s a value built from the received message (%s) that is neither the message itself nor a fresh copy of it: a buffer reused for every message makes all queued messages share one backing array (older queued messages read as the newest one)", c.P.Pos(snd.Instr.Pos()), truncate(v.String(), 100))
+					}
 					if received && s.val != nil && (v.String() == s.val.String() || strings.Contains(v.String(), s.val.String())) {
 						forwarded++
 						// on a closable channel the forwarded value must be known to be a real one
@@ -1316,4 +1319,22 @@ func ruleRelayDrains(c *Ctx, cf *chanFlow, classes []*chanClass) {
 			c.Check(bad == "", "R15.7", key, pos, fmt.Sprintf("%d returning path(s), each after the source was seen closed", n), bad)
 		}
 	}
+}
+
+// freshCopyOf: v is a new slice holding the bytes of val: append(nil / zero-length literal, val...), bytes.Clone(val),
+// slices.Clone(val), or a conversion of val.
+func freshCopyOf(v, val *Term) bool {
+	v = v.StripConv()
+	if v.String() == val.String() {
+		return true
+	}
+	switch {
+	case v.Op == "append" && len(v.Args) == 2:
+		base := v.Args[0].StripConv()
+		isFresh := base.Op == "const" && base.Cval == nil || base.Op == "slicelit" && len(base.Args) == 0 || base.Op == "makeslice"
+		return isFresh && v.Args[1].StripConv().String() == val.String()
+	case v.Op == "call" && (strings.HasPrefix(v.Aux, "bytes.Clone") || strings.HasPrefix(v.Aux, "slices.Clone")) && len(v.Args) == 1:
+		return v.Args[0].StripConv().String() == val.String()
+	}
+	return false
 }
